@@ -159,7 +159,7 @@ def _build_tu(o, canary=False, witness=False):
                 globals=sorted(n for n, _ in ex.ctx.need_globals), globals_q=sorted(ex.ctx.need_globals),
                 tables=tables, harness_text=htext,
                 spec_lines=(ex.spec_for(o.enforce).get('function', []) if o.enforce else None),
-                fn_node=(ex.node(o.enforce) if o.enforce else None))
+                fn_node=(ex.node(o.enforce) if o.enforce else None), _ex=ex)
     return path, info
 
 
@@ -266,9 +266,15 @@ def run_pipeline(o, path, trace=False, canary=False, stop_on_fail=False):
     if verdict is None or not props:
         res.update(status='undecided', reason='cbmc gave no verdict (rc=%s): %s' % (rc, (err + out)[-2000:]))
         return res
-    failed = [p for p in props if p[2] != 'SUCCESS']
+    failed = [p for p in props if p[2] == 'FAILURE']
+    unknown = [p for p in props if p[2] == 'UNKNOWN']
     res['n_props'] = len(props)
     res['failed'] = failed
+    if unknown and not failed:
+        # the back end gave up on some properties (resource limit / interrupted incremental run): nothing was refuted
+        res.update(status='undecided', reason='cbmc left %d of %d properties UNKNOWN (no property refuted): %s' % (
+            len(unknown), len(props), '; '.join(p[0] for p in unknown[:4])))
+        return res
     if canary:
         can = [p for p in props if 'canary' in p[1]]
         res['canary_fired'] = any(p[2] == 'FAILURE' for p in can) and bool(can)
@@ -340,7 +346,7 @@ def check_obligation(o, want_trace=True):
                 wpath, winfo = build_tu(o, witness=True)
                 wo = o
                 tres = run_pipeline(o, wpath, trace=True, stop_on_fail=True)
-                res['trace'] = tres.get('out_full', '')[-400000:]
+                res['trace'] = tres.get('out_full', '')[-30000000:]
                 res['witness_tu'] = wpath
             except Undecided as e:
                 res['trace'] = ''
